@@ -70,6 +70,43 @@ def r_fresh_buffers(prog, rep):
         raise AnalysisBroken("R-FRESH-BUFFER: only %d buffer-taking attribute lookups found" % n_calls)
 
 
+def r_lexer_mode(prog, rep):
+    r = rep.rule("R-LEXER-MODE", "the parser puts the lexer into a special mode (identifier-specific, path, variable string) only for the tokens that need it: from every "
+                                 "such switch each path out of the function passes a switch back to the normal mode — directly or inside a callee that switches back "
+                                 "on all of its paths.  A leaked identifier-specific mode makes the next line's keyword an identifier and drops the statement", floor=6)
+    fns = [f for f in prog.functions.values() if not f.is_lambda and "ParserImpl" in (f.cls or "") and f.calls("Lexer::setMode")]
+    if len(fns) < 5:
+        raise AnalysisBroken("R-LEXER-MODE: only %d parser functions set the lexer mode" % len(fns))
+
+    def mode_of(c):
+        return expr_str(core(arg_nodes(c)[0])).split("::")[-1] if arg_nodes(c) else "?"
+    restoring = set()
+    for f in fns:
+        nones = [c for c in f.calls("Lexer::setMode") if mode_of(c) == "None"]
+        if nones and cfg.must_pass_through(f, cfg.entry_pos(f), lambda p, e, f=f, nones=nones: any(cfg.elem_node(f, e) is c for c in nones))[0]:
+            restoring.add(f.key)
+    n = 0
+    for f in sorted(fns, key=lambda g: g.line):
+        sets = f.calls("Lexer::setMode")
+        for c in sets:
+            if mode_of(c) == "None":
+                continue
+            n += 1
+
+            def settles(p, e, f=f, c=c):
+                x = cfg.elem_node(f, e)
+                if x is None or x is c:
+                    return False
+                if x.get("k") == "call" and (x.get("fn") or "").endswith("Lexer::setMode"):
+                    return True
+                return x.get("k") == "call" and x.get("fk") in restoring
+            w = cfg.path_exists(f, cfg.pos_of(f, c), cfg.is_exit, avoid=settles)
+            r.check(w is None, "%s|%s@%d" % (f.name.split("::")[-1], mode_of(c), sum(1 for c2 in sets if c2.line < c.line and mode_of(c2) == mode_of(c))), "",
+                    "the lexer can be left in %s mode when %s returns" % (mode_of(c), f.name.split("::")[-1]), f, c)
+    if n < 6:
+        raise AnalysisBroken("R-LEXER-MODE: only %d special-mode switches found" % n)
+
+
 def r_input_classes(prog, rep):
     """shared with C18 (order-only vs implicit inputs decide what triggers a rebuild)"""
     ri = rep.rule("R-INPUT-CLASSES", "explicit, implicit and order-only inputs: `|` starts the implicit and `||` the order-only inputs; the parser counts the explicit "
@@ -327,6 +364,7 @@ def run(ctx):
 
     r_input_classes(prog, rep)
     r_fresh_buffers(prog, rep)
+    r_lexer_mode(prog, rep)
 
     # ---------------------------------------------------------------- escapes
     r = rep.rule("R-ESCAPES", "evalString handles exactly Ninja's $-escapes ($\\n, $ , $:, $$, ${name}, $name) and reports everything else", floor=3)
@@ -546,4 +584,6 @@ VARIANTS = [
          new="    lookupNamedBuildParameter(decl, startTok, \"generator\", poolName);\n    decl->setGeneratorFlag(!poolName.str().empty());", expect=("R-FRESH-BUFFER", "generator")),
     dict(name="benign-scratch-buffer-cleared-between-lookups", file="lib/Ninja/ManifestLoader.cpp", old="    SmallString<256> generator;\n    lookupNamedBuildParameter(decl, startTok, \"generator\", generator);\n    decl->setGeneratorFlag(!generator.str().empty());",
          new="    poolName.clear();\n    lookupNamedBuildParameter(decl, startTok, \"generator\", poolName);\n    decl->setGeneratorFlag(!poolName.str().empty());", expect=None),
+    dict(name="blank-line-in-block-leaks-identifier-mode", file="lib/Ninja/Parser.cpp", old="      // Ensure we switch out of identifier specific mode.\n      lexer.setMode(Lexer::LexingMode::None);\n      consumeExpectedToken(Token::Kind::Newline);",
+         new="      consumeExpectedToken(Token::Kind::Newline);", expect=("R-LEXER-MODE", "parseParameterizedDecl")),
 ]
